@@ -64,7 +64,16 @@ class SolveGroupSwizzlerPartsel(object):
             swizzle_node_l = []
             max_swizzle = 4
 
-            # Select up to `max_swizzle` fields to swizzle            
+            # Fields with a dist constraint are always steered: their 
+            # values must follow the weights on every call
+            for f in [f for f in field_l if f in rs.dist_field_m.keys()]:
+                field_l.remove(f)
+                e_l = self.swizzle_field(f, rs, bound_m)
+                if e_l is not None:
+                    for e in e_l:
+                        swizzle_node_l.append(e.build(btor))
+
+            # Select up to `max_swizzle` of the other fields to swizzle            
             for i in range(max_swizzle):
                 if len(field_l) > 0:
                     field_idx = self.randstate.randint(0, len(field_l)-1)
@@ -175,7 +184,7 @@ class SolveGroupSwizzlerPartsel(object):
             e.append(ExprBinModel(
                         ExprFieldRefModel(f),
                         BinExprType.Eq,
-                        ExprLiteralModel(t_range[0], False, 32)))
+                        ExprLiteralModel(t_range[0], f.is_signed, f.width)))
         else:
             # Determine the max width to use for swizzling. 
             # max value of abs bounds
@@ -193,6 +202,20 @@ class SolveGroupSwizzlerPartsel(object):
                 
             bit_pattern = self.randstate.randint(t_range[0], t_range[1])
             e = self._build_swizzle_constraints(f, bit_pattern, d_width)
+            
+            if d_width < f.width:
+                # Steer the bits above the swizzled ones (sign bits 
+                # included) as well. Otherwise, values that agree on the low 
+                # bits compete, and the solver always picks the same one
+                u_width = f.width-d_width
+                e.append(ExprBinModel(
+                    ExprPartselectModel(
+                        ExprFieldRefModel(f),
+                        ExprLiteralModel(f.width-1, False, 32),
+                        ExprLiteralModel(d_width, False, 32)),
+                    BinExprType.Eq,
+                    ExprLiteralModel((bit_pattern >> d_width) & ((1 << u_width)-1), False, u_width)
+                    ))
 
         return e
     
